@@ -5,7 +5,7 @@
    run_storemap evaluates [trace (impl_step ..)] -- the function the C04 theorems are about;
    prop_storemap evaluates the reference map [spec_step] against what the IMPLEMENTATION returned. *)
 From Coq Require Import Strings.String.
-From GoCar Require Import Bytes Varint Cid Header Frame V2Header Index Store Val RunStore StoreSpec Deferred.
+From GoCar Require Import Bytes Varint Cid Header Frame V2Header Index Scan Store Crash Val RunStore StoreSpec Deferred.
 
 (* kinds: 0 blockstore.OpenReadWrite(path) | 5 blockstore.OpenReadWriteFile(caller's file) | 1,2,3 storage *)
 Definition v_front (kn : N) : front := if kn =? 0 then FBs else if kn =? 5 then FBf else FSt (kn =? 1).
@@ -46,16 +46,49 @@ Fixpoint step_obs (prev : bytes) (tr : list (wstate * out)) : list val :=
       VL [v_out o; v_of_bool (negb (bytes_eqb prev (ws_file s)))] :: step_obs (ws_file s) t
   end.
 
+(* histories with reopen: (treopen ..) closes the handle and opens the file again with the same roots and
+   options (Crash.reopen = store.ResumableVersion + store.Resume); a failed reopen ends the history *)
+Inductive xop := XOp (op : sop) | XReopen.
+Fixpoint v_xops (l : list val) : list xop :=
+  match l with
+  | [] => []
+  | v :: t => if tag_is v "reopen" then XReopen :: v_xops t
+              else match v_sop v with Some op => XOp op :: v_xops t | None => v_xops t end
+  end.
+
+Section XTrace.
+  Variable hdrdec : bytes -> option (list bytes * N).
+  Variables (f : front) (o : wopts) (nilroots : bool) (roots : list bytes).
+  (* (file after the step, result) per step *)
+  Fixpoint xtrace (s : wstate) (ops : list xop) : list (bytes * out) :=
+    match ops with
+    | [] => []
+    | XOp op :: t => let '(s', r) := impl_step hdrdec f s op in (ws_file s', r) :: xtrace s' t
+    | XReopen :: t =>
+        match reopen hdrdec (ws_kind s) o nilroots roots (ws_file s) with
+        | inl s' => (ws_file s', ONil) :: xtrace s' t
+        | inr (e, dv) => [(d_file dv, OErr e)]
+        end
+    end.
+End XTrace.
+
+Fixpoint xstep_obs (prev : bytes) (tr : list (bytes * out)) : list val :=
+  match tr with
+  | [] => []
+  | (file, o) :: t => VL [v_out o; v_of_bool (negb (bytes_eqb prev file))] :: xstep_obs file t
+  end.
+
 Definition run_storemap (input : val) : val :=
   let kn := vN (vnth 0 input) in
   let o := v_wopts (vnth 1 input) in
   let roots := vcids (vnth 2 input) in
+  let nilroots := is_nil_tag (vnth 2 input) in
   let hdrdec := hdr_lookup (vL (vnth 5 input)) in
-  match open_new (v_mkind kn) o (is_nil_tag (vnth 2 input)) roots [] with
+  match open_new (v_mkind kn) o nilroots roots [] with
   | Err e => VL [VL [VT "err"; v_err e]; VL []; VB []]
   | Ok s =>
-    let tr := trace (impl_step hdrdec (v_front kn)) s (v_sops (vL (vnth 4 input))) in
-    VL [VL [VT "nil"]; VL (step_obs (ws_file s) tr); VB (ws_file (last (map fst tr) s))]
+    let tr := xtrace hdrdec (v_front kn) o nilroots roots s (v_xops (vL (vnth 4 input))) in
+    VL [VL [VT "nil"]; VL (xstep_obs (ws_file s) tr); VB (last (map fst tr) (ws_file s))]
   end.
 
 (* ---- the layer-B predicate ------------------------------------------------------------------------ *)
@@ -95,9 +128,14 @@ Definition fail (clause cls : string) : val := VL [VT "FAIL"; VT clause; VT cls]
      (the property does not say what a second Finalize/Close answers), only its effect is;
    - once the map is frozen (closed or finalized) the file must not change. *)
 Fixpoint check_steps (f : front) (o : wopts) (roots : list bytes) (cls : string)
-         (m : mstate) (ops : list sop) (obs : list val) : val :=
+         (m : mstate) (ops : list xop) (obs : list val) : val :=
   match ops, obs with
-  | op :: ops', ob :: obs' =>
+  | XReopen :: ops', ob :: obs' =>
+    (* reopening the file a session left behind succeeds and the store holds the same blocks, open again
+       (C04_refines_map_resumed); Resume may rewrite the CARv2 header, so the file may change here *)
+    if val_eqb (vnth 0 ob) (VL [VT "nil"]) then check_steps f o roots cls (mkm (m_blocks m) false false) ops' obs'
+    else fail "reopen-refused" cls
+  | XOp op :: ops', ob :: obs' =>
     let '(m', expect) := spec_step f o roots m op in
     let got := vnth 0 ob in
     let changed := vbool (vnth 1 ob) in
@@ -120,7 +158,7 @@ Definition prop_storemap (input obs : val) : val :=
   if negb (tag_is (vnth 0 obs) "nil") then VT "ok"      (* the store could not be opened: n/a *)
   else
     let cls := String.append (if kn =? 0 then "blockstore" else if kn =? 5 then "blockstore-callers-file" else "storage") (if w_v1 o then "-v1" else "-v2") in
-    check_steps (v_front kn) o roots cls m_empty (v_sops (vL (vnth 4 input))) (vL (vnth 1 obs)).
+    check_steps (v_front kn) o roots cls m_empty (v_xops (vL (vnth 4 input))) (vL (vnth 1 obs)).
 
 (* ==== kind "deferred" (C20) ===============================================================================
    input  = (target v1given opts roots ops pre) target: 0 path | 1 stream; roots: (cid ...) or tnil;
